@@ -98,8 +98,8 @@ def coq_case(case, res, strict_err=True):
     ops = cq_list([COQ[o[0]](*o[1:]) for o in case['ops']])
     return '(%s, %s, %s)' % (ins, ops, cq_expect(res, strict_err))
 
-HEADER = ('From DA Require Import Prelude NDArray Array.\n'
-          'From DA.Model Require Import Value Ops.\n'
+HEADER = ('From DA Require Import Prelude NDArray Array PyRT.\n'
+          'From DA.Model Require Import Value Reshape Indexing Ops.\n'
           'Open Scope string_scope.\n')
 
 # ---------------------------------------------------------------- indexing (C01, C02, C03)
